@@ -149,4 +149,19 @@ func ZZ_C07_SubscribeReplay() {
 	} else {
 		zzrt.Cover("not-replayed")
 	}
+	// a replay hands out the kept message, it does not change it: the next subscriber
+	// (another client, QoS 2, Retain As Published) is served from the unchanged store
+	kept := srv.retainedDB.GetRetainedMessage("a/b")
+	zzrt.Assert(kept != nil && kept.QoS == storedQ && kept.Retained && !kept.Dup && string(kept.Payload) == "m1", "replay-leaves-the-kept-message-unchanged")
+	q2 := &zzRecQueue{}
+	c2 := &client{server: srv, version: packets.Version5, rwc: &zzConn{}, queueStore: q2, out: make(chan packets.Packet, 8), close: make(chan struct{}),
+		opts: &ClientOptions{ClientID: "c2", SharedSubAvailable: true, WildcardSubAvailable: true, SubIDAvailable: true}}
+	sub2 := &packets.Subscribe{Version: packets.Version5, PacketID: 10, Properties: &packets.Properties{},
+		Topics: []packets.Topic{{Name: "a/b", SubOptions: packets.SubOptions{Qos: 2, RetainAsPublished: true}}}}
+	zzrt.Assert(c2.subscribeHandler(sub2) == nil, "second-subscribe-handled")
+	zzrt.Assert(len(q2.added) == 1, "second-subscriber-gets-the-kept-message")
+	if len(q2.added) == 1 {
+		m2 := q2.added[0].MessageWithID.(*queue.Publish).Message
+		zzrt.Assert(m2.QoS == storedQ && m2.Retained, "second-subscriber-gets-the-kept-message-at-its-stored-qos-with-retain")
+	}
 }
